@@ -468,6 +468,12 @@ def oracle_pod(cases, impl):
                 exp = 'P' if len(data) < sz else 'O' + data[:sz].hex()
                 if r != exp:
                     bad = 'pod: load of %d-byte type from %d bytes gives %s, expected %s' % (sz, len(data), r, exp)
+            elif op[0] == 'loadoff':
+                sz = int(op[1]); off = int(op[2]); data = unhex(op[3])
+                al = {4: 4, 8: 8}.get(sz, 1)
+                exp = 'P' if (len(data) < sz or off % al != 0) else 'O' + data[:sz].hex()
+                if r != exp:
+                    bad = 'pod: load of %d-byte type from a slice at offset %d of an aligned buffer gives %s, expected %s (the view must be exactly the first size_of bytes, or the call must be refused)' % (sz, off, r, exp)
             elif op[0] == 'loadmut':
                 sz = int(op[1]); data = unhex(op[2]); v = unhex(op[3])
                 exp = 'P' if len(data) < sz else 'O' + (v + data[sz:]).hex()
@@ -479,7 +485,7 @@ def oracle_pod(cases, impl):
                     exp = 'P'
                 else:
                     inner = data[:sz]
-                    some = (inner != b'\xff' * 8) if sz == 8 else any(inner)
+                    some = (inner != b'\xff' * 8) if sz == 8 else ((any(inner) and inner != b'\xff\xff') if sz == 2 else any(inner))
                     exp = 'TT' if some else 'FF'
                 if r != exp:
                     bad = 'pod: PodOption over %s gives %s, expected %s' % (data.hex(), r, exp)
